@@ -209,3 +209,20 @@ def must_pass_after(body, after_bb, through_blocks, avoid=()):
             return False
         st.extend(body.succ(b))
     return True
+
+
+def root_fn(path):
+    """the function a closure belongs to: path without its `::{closure#n}` suffixes (closure numbering changes under edits)"""
+    return re.sub(r'(::\{closure#\d+\})+$', '', path)
+
+
+def with_closures(f, b):
+    """the body and the closures defined inside it"""
+    pre = b.path + '::{closure'
+    return [b] + [x for x in f.fn_bodies() if x.path.startswith(pre)]
+
+
+def calls_with_closures(f, b):
+    for x in with_closures(f, b):
+        for bb, t in x.calls():
+            yield x, bb, t
